@@ -76,6 +76,12 @@ def gen_case(rng, tier, form=None):
         case["gstr"] = True
     g = [rng.randint(0, rng.choice([0, 1, 2, 3])) for _ in range(n)]
     case.update({"vals": gen_vals(rng, kind, n), "g": g})
+    if rng.random() < 0.25:
+        # other helpers on the same column listed BEFORE this one in the same aggregate() call: each helper is a statistic
+        # of the group's elements whatever was computed before it
+        pool = [h for h in HELPERS if not (kind in ("date", "timedelta") and h in NUMERIC_ONLY)]
+        case["before"] = [{"helper": h, "args": gen_args(rng, h)} for h in (rng.choice(pool + ["median", "median"]) for _ in range(rng.choice([1, 2])))
+                          if not (kind in ("date", "timedelta") and h in NUMERIC_ONLY)]
     return case
 
 
@@ -88,6 +94,17 @@ def gen_cases(ctx):
         {"op": "group", "helper": "nth", "kind": "float", "args": {"drop_na": True, "index": -3}, "vals": [1.0, 2.0, "nan", "nan"], "g": [0, 0, 1, 1]},
         {"op": "group", "helper": "count", "kind": "float", "args": {"drop_na": True}, "vals": [1.0, "nan", "nan"], "g": [0, 0, 1]},
     ]
+    # an order-dependent helper listed after helpers that may rearrange what they are given (median, quantile, sort-based ones)
+    for _ in range(24 if ctx.tier == "quick" else 400):
+        kind = rng.choice(["float", "int"])
+        nrow = rng.choice([3, 5, 6, 9])
+        h = rng.choice(["first", "last", "nth", "mode"])
+        a = gen_args(rng, h)
+        a["drop_na"] = rng.choice([None, False])
+        pool = [x for x in POOLS[kind] if not vecgen.is_na_val(kind, x)]
+        cases.append({"op": "group", "helper": h, "kind": kind, "args": a, "vals": [rng.choice(pool) for _ in range(nrow)],
+                      "g": [rng.randint(0, 1) for _ in range(nrow)],
+                      "before": [{"helper": b, "args": gen_args(rng, b)} for b in rng.sample(["median", "quantile", "max", "count_unique", "std"], rng.choice([1, 2]))]})
     n = 800 if ctx.tier == "quick" else 20000
     for _ in range(n):
         cases.append(gen_case(rng, ctx.tier))
@@ -154,7 +171,12 @@ def impl(case, use_numba=False):
                     df = di.DataFrame(g=np.array([f"g{v}" for v in case["g"]], dtype=di.dtypes.string), x=vecgen.make_array(kind, case["vals"]))
                 else:
                     df = di.DataFrame(g=np.array(case["g"], dtype=np.int64), x=vecgen.make_array(kind, case["vals"]))
-                stat = df.group_by("g").aggregate(y=f("x", *pos, **kw) if helper != "count" or True else f())
+                funs = {}
+                for i, b in enumerate(case.get("before") or []):
+                    bpos, bkw = call_args(b)
+                    funs[f"b{i}"] = getattr(di, b["helper"])("x", *bpos, **bkw)
+                funs["y"] = f("x", *pos, **kw)
+                stat = df.group_by("g").aggregate(**funs)
                 res["out"] = [canon_result(x) for x in stat.y]
                 res["groups"] = [int(str(x)[1:]) if case.get("gstr") else int(x) for x in stat.g]
                 res["dtype"] = str(stat.y.dtype)
